@@ -83,7 +83,7 @@ class LowerTry(Rule):
     a fixed hit count is not); a may-throw call must be an expression statement; the protected block must contain at least
     one may-throw call."""
 
-    KEYWORDS = {'if', 'for', 'while', 'switch', 'catch', 'return', 'sizeof'}
+    KEYWORDS = {'if', 'for', 'while', 'switch', 'catch', 'return', 'sizeof', 'VERIF_CATCHES'}
 
     def __init__(self, handlers, maythrow, nothrow, ret=''):
         self.handlers, self.maythrow, self.nothrow, self.ret = handlers, maythrow, nothrow, ret
@@ -108,6 +108,9 @@ class LowerTry(Rule):
         return seg, len(ins)
 
     def apply(self, text, where=''):
+        # `dynamic_cast<const T*>(&e)` on a caught exception object: non-null iff the dynamic type of e is T or derived from T --
+        # the subtype test of the exception model (the handler variable e holds the class of the exception in flight)
+        text = re.sub(r'\bdynamic_cast<\s*const\s+(\w+)\s*\*\s*>\(\s*&\s*(\w+)\s*\)', r'VERIF_CATCHES(\2, EXC_\1)', text)
         m = lex.mask(text)
         for mo in re.finditer(r'\b([A-Za-z_]\w*)\s*\(', m):
             if mo.group(1) not in self.KEYWORDS and mo.group(1) not in self.maythrow and mo.group(1) not in self.nothrow:
@@ -244,16 +247,23 @@ def macro_units(ctx, src):
     """The macro layer, verbatim (#define lines are C preprocessor text), plus the g++ -E cross-check on the real header."""
     text = src.text(HH)
     names = re.findall(r'^[ \t]*#[ \t]*define[ \t]+(\w+)', text, re.M)
-    if sorted(names) != sorted(MACROS):
-        raise ExtractionBreak('%s defines macros %r, the table covers %r' % (HH, sorted(names), sorted(MACROS)))
+    for n in MACROS:
+        if names.count(n) != 1:
+            raise ExtractionBreak('%s defines the macro %s %d times (exactly once expected)' % (HH, n, names.count(n)))
     if re.search(r'^[ \t]*#[ \t]*undef', text, re.M):
         raise ExtractionBreak('%s: #undef found' % HH)
+    # the whole preprocessor layer of the header, verbatim and in order (#define incl. helper macros the expect_* macros are written
+    # with, and the conditional directives around them); #include / #pragma lines are left out
     u = Unit(ctx, 'macros')
-    for n in MACROS:
-        rules = []
-        if n == 'expect_raises':
-            rules = [Rule('expect_raises_fn<type>(', 'VERIF_ER_INST(type)(', count=1)]
-        u.raw(u.snippet(src, HH, r'(?m)^#define %s\([^\n]*$' % n, rules=rules))
+    for mo in re.finditer(r'(?m)^[ \t]*#[ \t]*(\w+)(?:[^\n\\]|\\\n|\\.)*$', text):
+        if mo.group(1) in ('include', 'pragma'):
+            continue
+        line = mo.group(0)
+        if re.match(r'[ \t]*#[ \t]*define[ \t]+expect_raises\b', line):
+            if line.count('expect_raises_fn<type>(') != 1:
+                raise ExtractionBreak('%s: expect_raises does not instantiate expect_raises_fn<type> exactly once' % HH)
+            line = line.replace('expect_raises_fn<type>(', 'VERIF_ER_INST(type)(')
+        u.raw(line)
     u.write(suffix='.h', scan=False)
     # supporting static fact: expansion by the real C++ preprocessor through the real include chain
     tu = os.path.join(ctx.build_dir, 'macro_expansion_tu.cc')
@@ -329,12 +339,18 @@ def plan(ctx):
                                             'the message #a " %s " #b, each operand evaluated once' % RELS[n],
                                 tier='quick' if ty in ('int64_t', 'double') else 'thorough',
                                 replay=Replay(mode='macro', extra=[n, ty], **RP)))
-    groups.append(Group(name='UnitTest.macro.expect', harness='harness/C19/macros.c', entry='h_macro_expect', function='expect',
-                        replace=['expect_generic'], kind='lemma', defines=['T=int64_t'], min_post=5,
-                        replay=Replay(mode='macro', extra=['expect', 'int64_t'], **RP)))
-    groups.append(Group(name='UnitTest.macro.expect_msg', harness='harness/C19/macros.c', entry='h_macro_expect_msg', function='expect_msg',
-                        replace=['expect_generic'], kind='lemma', defines=['T=int64_t'], min_post=5,
-                        replay=Replay(mode='macro', extra=['expect_msg', 'int64_t'], **RP)))
+    # expect(p) / expect_msg(p, m): the predicate is converted to bool (p != 0) -- for every operand type, also a double between 0 and 1 or an
+    # integer whose low bits are zero (a conversion through a narrower or integral type on the way would change the verdict)
+    for ty in ('int64_t', 'double', 'uint64_t', 'float'):
+        sfx = '' if ty == 'int64_t' else '[%s]' % ty
+        groups.append(Group(name='UnitTest.macro.expect' + sfx, harness='harness/C19/macros.c', entry='h_macro_expect', function='expect',
+                            replace=['expect_generic'], kind='lemma', defines=['T=' + ty], min_post=5,
+                            tier='quick' if ty in ('int64_t', 'double') else 'thorough',
+                            replay=Replay(mode='macro', extra=['expect', ty], **RP)))
+        groups.append(Group(name='UnitTest.macro.expect_msg' + sfx, harness='harness/C19/macros.c', entry='h_macro_expect_msg', function='expect_msg',
+                            replace=['expect_generic'], kind='lemma', defines=['T=' + ty], min_post=5,
+                            tier='quick' if ty in ('int64_t', 'double') else 'thorough',
+                            replay=Replay(mode='macro', extra=['expect_msg', ty], **RP)))
     groups.append(Group(name='UnitTest.macro.expect_raises', harness='harness/C19/macros.c', entry='h_macro_expect_raises', function='expect_raises',
                         replace=['expect_raises_fn__runtime_error'], kind='lemma',
                         defines=['T=int64_t', 'ER_NAME=expect_raises_fn__runtime_error', 'EXC_ExcT=EXC_runtime_error'], min_post=3,
